@@ -112,3 +112,35 @@ pub fn inputs(_seed: u64, open: &[String]) -> impl Iterator<Item = Value> {
     }
     v.into_iter()
 }
+
+// ------------------------------------------------------------------------------------------------------------------
+// c09_subtype: registry::MetaTypeName::is_subtype vs the spec's AreTypesCompatible(variableType, locationType)
+fn compatible(var: &str, loc: &str) -> bool {
+    // spec (All Variable Usages Are Allowed): loc non-null => var non-null and inner compatible; var non-null => strip; both lists => items; else same name
+    if let Some(l) = loc.strip_suffix('!') { return match var.strip_suffix('!') { Some(v) => compatible(v, l), None => false }; }
+    if let Some(v) = var.strip_suffix('!') { return compatible(v, loc); }
+    match (loc.strip_prefix('[').and_then(|x| x.strip_suffix(']')), var.strip_prefix('[').and_then(|x| x.strip_suffix(']'))) {
+        (Some(l), Some(v)) => compatible(v, l),
+        (None, None) => loc == var,
+        _ => false,
+    }
+}
+/// args {"position": "[A]", "variable": "[A]!"}
+pub fn subtype(args: &Value) -> Outcome {
+    use async_graphql::registry::MetaTypeName;
+    let (p, v) = (args["position"].as_str().unwrap(), args["variable"].as_str().unwrap());
+    let got = MetaTypeName::create(p).is_subtype(&MetaTypeName::create(v));
+    let exp = compatible(v, p);
+    Outcome { holds: got == exp, observed: format!("create({:?}).is_subtype(create({:?})) == {}", p, v, got), expected: format!("AreTypesCompatible(variable {}, position {}) == {}", v, p, exp) }
+}
+pub fn subtype_inputs(_seed: u64, open: &[String]) -> impl Iterator<Item = Value> {
+    let skip = open.iter().any(|x| x == "C09-nonnull-list-variable-in-list-position");
+    let mut ts: Vec<String> = vec!["A".into(), "B".into()];
+    for _ in 0..3 { let mut next = ts.clone(); for t in &ts { if !t.ends_with('!') { next.push(format!("{}!", t)); } next.push(format!("[{}]", t)); } next.sort(); next.dedup(); ts = next.into_iter().filter(|t| t.len() <= 7).collect(); }
+    let mut out = Vec::new();
+    for a in &ts { for b in &ts {
+        // region of the open finding: the variable type has a non-null LIST (`]!`) at a level where the position's list is nullable
+        if skip && b.contains("]!") && compatible(b, a) && a != b { continue; }
+        out.push(json!({"position": a, "variable": b})); } }
+    out.into_iter()
+}
